@@ -42,6 +42,33 @@ def messages(seed):
     return out
 
 
+def struct_messages(seed):
+    """stand-alone structures (they share whatever a top-level decode of a bare type shares): complete ones and ones
+    whose strict decode stops inside a size-prefixed region (truncated / bad value)"""
+    from .. import cases
+
+    def enc(tn):
+        return cases.replay_case({"kind": "struct", "root": tn, "label": tn, "k": 0, "defaults": cases.RICH}, seed, ()).b
+
+    pt, nv, cr = enc("TPM2B_ECC_POINT"), enc("TPM2B_NV_PUBLIC"), enc("TPM2B_SENSITIVE_CREATE")
+    bad = bytearray(nv)
+    bad[6:8] = b"\x7f\xff"  # nameAlg out of range, inside the size-prefixed region
+    return [
+        ("struct:TPM2B_ECC_POINT", "TPM2B_ECC_POINT", pt, None, None),
+        ("struct:TPM2B_NV_PUBLIC", "TPM2B_NV_PUBLIC", nv, None, None),
+        ("struct:TPM2B_ECC_POINT(truncated)", "TPM2B_ECC_POINT", pt[:-3], None, None),
+        ("struct:TPM2B_NV_PUBLIC(bad value)", "TPM2B_NV_PUBLIC", bytes(bad), None, None),
+        ("struct:TPM2B_SENSITIVE_CREATE", "TPM2B_SENSITIVE_CREATE", cr, None, None),
+    ]
+
+
+def all_messages(seed):
+    return messages(seed) + struct_messages(seed)
+
+
+NFRAMES = 8  # messages() ; the stand-alone structures follow
+
+
 def maker(msg, strict=True):
     ns = loader.load()
     label, root, b, cc, enc = msg
@@ -70,11 +97,12 @@ def norm(evs):
 
 
 def units(tier, seed):
-    msgs = messages(seed)
     n = 6 if tier == "quick" else 8
-    idx = list(range(n))
-    us = []
+    idx = list(range(n)) + list(range(NFRAMES, NFRAMES + 5))
+    us = [{"kind": "sweep", "label": "sweep:all-encrypted-kinds", "seed": seed, "tier": tier}]
     for a, b in itertools.product(idx, repeat=2):
+        if (a >= NFRAMES) != (b >= NFRAMES) and tier == "quick":
+            continue  # quick: frames with frames, structures with structures
         us.append({"kind": "sched", "label": f"sched:{a},{b}", "msgs": [a, b], "p": 1 if tier == "quick" else 3 if (a < 2 and b < 2) else 2, "seed": seed})
     if tier == "quick":
         us.append({"kind": "sched", "label": "sched:0,1/p2", "msgs": [0, 1], "p": 2, "seed": seed})
@@ -92,6 +120,7 @@ def units(tier, seed):
 def op_names(n):
     ops = [f"decode:{i}" for i in range(n)]
     ops += [f"e2o:{i}" for i in (0, 3, 5)] + [f"o2e:{i}" for i in (0, 3)] + [f"canon:{i}" for i in (1,)] + [f"warn:{i}" for i in (1, 4)]
+    ops += [f"decode:{i}" for i in range(NFRAMES, NFRAMES + 5)] + [f"abandon:{i}" for i in (1, NFRAMES + 1)]
     return ops
 
 
@@ -106,7 +135,13 @@ def do_op(op, msgs):
     label, root, b, cc, enc = msg
     if kind == "decode":
         evs, obj, err = solo(msg)
-        return (norm(evs), repr(obj), type(err).__name__), (evs, obj)
+        return (norm(evs), repr(obj), None if err is None else impl.norm_err(err)), (evs, obj)
+    if kind == "abandon":
+        g = maker(msg)()
+        n_ev = max(1, len(solo(msg)[0]) // 2)
+        evs = [next(g) for _ in range(n_ev)]
+        del g  # the caller loses interest: the generator is dropped in the middle of the value
+        return (norm(evs),), (evs,)
     if kind == "warn":
         g = maker(msg, strict=False)()
         evs = list(g)
@@ -137,10 +172,45 @@ def global_baseline(op, msgs):
     return _global[op]
 
 
+def sweep(acc, unit):
+    """every encrypted-parameter kind the tables allow (commands with a decrypt session, responses decoded with the
+    encryption flag), decoded in order, then all of them again (and in reverse): every later result must equal the first
+    one.  Exposes any bound on the number of synthesized types that can be alive at once."""
+    seed = unit["seed"]
+    kinds = []
+    for ccname in sorted(V.C()):
+        p = c09.pair(ccname, "decrypt", seed)
+        if p:
+            kinds.append(("cmd:" + ccname, "Command", p[0], None, None))
+        p = c09.pair(ccname, "encrypt", seed)
+        if p:
+            kinds.append(("rsp:" + ccname, "Response", p[1], V.C()[ccname]["cc"], True))
+    loader.cache_clear()
+    first = [solo(m) for m in kinds]
+    acc.count("states", len(kinds))
+    for name, order in (("again", range(len(kinds))), ("reverse", range(len(kinds) - 1, -1, -1))):
+        for i in order:
+            acc.count("evaluations")
+            acc.count("transitions")
+            evs, obj, err = solo(kinds[i])
+            f_evs, f_obj, f_err = first[i]
+            if (err is None) != (f_err is None) or norm(evs) != norm(f_evs):
+                acc.violation({"clause": "sweep:result-differs"}, {"harness": "sweep", "kind": kinds[i][0], "pass": name}, f"{kinds[i][0]}: the {name} pass gives a different result")
+            elif evs != f_evs or not (obj == f_obj):
+                acc.violation({"clause": "sweep:result-not-equal"}, {"harness": "sweep", "kind": kinds[i][0], "pass": name, "kinds": len(kinds)}, f"{kinds[i][0]}: decoded again after {len(kinds)} encrypted-parameter kinds, events / object compare unequal to the first decode (a new layout type was synthesized)", size=i)
+    acc.count("sweep_kinds", len(kinds))
+    acc.count("histories")
+    acc.shape(("sweep", len(kinds)))
+    acc.sample({"unit": unit["label"], "encrypted_kinds": len(kinds), "passes": ["first", "again", "reverse"]}, cap=1)
+    return acc
+
+
 def run_unit(unit):
     acc = Acc()
     loader.load()
-    msgs = messages(unit["seed"])
+    msgs = all_messages(unit["seed"])
+    if unit["kind"] == "sweep":
+        return sweep(acc, unit)
     if unit["kind"] == "sched":
         sel = [msgs[i] for i in unit["msgs"]]
         labels = [m[0] for m in sel]
@@ -159,8 +229,10 @@ def run_unit(unit):
                 outs, rets, errs, done, steps = sched.run_schedule([maker(m) for m in sel], s)
                 bad = []
                 for i in range(len(sel)):
-                    if errs[i] is not None or base[i][2] is not None:
-                        bad.append((i, "raises", f"{type(errs[i]).__name__ if errs[i] else None} vs solo {type(base[i][2]).__name__ if base[i][2] else None}"))
+                    e_i = None if errs[i] is None else impl.norm_err(errs[i])
+                    e_b = None if base[i][2] is None else impl.norm_err(base[i][2])
+                    if e_i != e_b:
+                        bad.append((i, "outcome-differs", f"interleaved: {e_i}, solo: {e_b}"))
                     elif norm(outs[i]) != norm(base[i][0]):
                         bad.append((i, "events-differ", "normalised events of the interleaved decode differ from the solo decode"))
                     elif outs[i] != base[i][0]:
@@ -246,7 +318,8 @@ def finish(acc, tier, seed):
         "histories": acc.n["histories"],
         "max_preemptions": acc.maxes.get("max_preemptions"),
         "rule": "schedules: every interleaving of the step-wise decoders with at most p preemptions, run to completion on the real generators (transitions = events stepped); histories: every sequence of <= h operations (decode / warn decode / events_to_obj(s) / obj_to_events / Canonical) over the message alphabet; distinct = distinct schedules (first 400 per unit) / histories of full depth",
-        "message_alphabet": [m[0] for m in messages(seed)],
+        "message_alphabet": [m[0] for m in all_messages(seed)],
+        "sweep_kinds": acc.n["sweep_kinds"],
         "exhaustive": True,
     }
 
@@ -254,10 +327,12 @@ def finish(acc, tier, seed):
 def replay(case):
     acc = Acc()
     loader.load()
-    if case.get("harness") == "sched":
+    if case.get("harness") == "sweep":
+        u = {"kind": "sweep", "label": "replay", "seed": 0, "tier": "quick"}
+    elif case.get("harness") == "sched":
         u = {"kind": "sched", "label": "replay", "msgs": case["messages"], "p": case.get("preemptions", 2), "seed": 0}
     else:
         h = case["history"]
-        u = {"kind": "hist", "label": "replay", "first": h[0], "depth": len(h), "n": 8, "seed": 0}
+        u = {"kind": "hist", "label": "replay", "first": h[0], "depth": min(len(h), 3), "n": 8, "seed": 0}
     acc = run_unit(u)
     return [(v["fp"], v["case"], v["detail"]) for v in acc.viol.values()]
